@@ -48,7 +48,9 @@ func (c *Ctx) rulePanicCover() {
 		r.Bad("C17-PANIC-COVER", "helper", "kit.(*JApi).toOpenAPI (the recover boundary) or openapi.NewOpenAPI not found: the export is not wrapped in a converting recover", "")
 		return
 	}
-	_, recovers := hasDeferredRecover(helper)
+	// a function literal, or a declared function handed the addresses of the named results
+	found, sets, _ := c.recoverSetsNamedError(helper)
+	recovers := found && sets
 	callsConv := len(callsIn(helper.Pkg, helper.Decl.Body, newOA)) == 1
 	// marshal is a parameter called inside the helper
 	callsMarshal := false
